@@ -162,8 +162,11 @@ def execute(case):
                                                      e["t"] - t0, gt)))
                 # (c) not to a worker that exited in time
                 for e in kills:
+                    # (a worker that was already dead when the termination
+                    # began - unnoticed so far - did not "exit in time": the
+                    # signals go to a zombie and reach nobody)
                     if not e["delivered"] and died_at is not None and \
-                            died_at <= t0 + gt + EPS:
+                            t0 - EPS <= died_at <= t0 + gt + EPS:
                         dead_for = e["t"] - died_at
                         if dead_for > STEP + EPS:
                             viols.append(Violation(
